@@ -296,7 +296,7 @@ for _cid, _m in {
     "C01": {"full_window_sessions": 50, "pubrels_written_at_full_window": 10, "requests_at_full_window": 300},
     "C05": {"acks_with_property_section_over_110_bytes": 1000},
     "C06": {"publishes_built_with_every_setter_called_twice": 50000},
-    "C07": {"inbound_pubrel_with_reason_0x92": 10000},
+    "C07": {"inbound_pubrel_with_reason_0x92": 10000, "inbound_publishes_with_every_forwardable_property": 10000},
     "C08": {"inbound_pubrel_with_reason_0x92": 1000},
     "C09": {"inbound_pubrel_with_reason_0x92": 10000},
     "C10": {"run_given_up_while_resending_cases": 100},
